@@ -11,26 +11,33 @@ package dagsync
 
 // The latest-synced value is recorded before the notification is sent, and the
 // notification carries the CID, publisher and count of this sync.
+// While a sync runs the distributor's input is open: it is closed by doClose only
+// after both wait groups have drained (API-boundary precondition of every sender).
 //@ func (*handler).sendSyncFinishedEvent
 //@   property C14
-//@   requires h != nil && h.subscriber != nil && h.subscriber.inEvents != nil
+//@   requires h != nil && h.subscriber != nil && h.subscriber.inEvents != nil && !closed(h.subscriber.inEvents)
 //@   mayblock send:inEvents
 //@   ensures-local count("call:setLatestSync") == 1 && count("send:inEvents") == 1 && before("call:setLatestSync", "send:inEvents")
 //@   ensures-local evarg("send:inEvents", 1) == str(c.str) && evarg("send:inEvents", 2) == str(h.peerID) && evarg("send:inEvents", 3) == count
 //@   at call setLatestSync#1: assert arg1 == h.peerID && arg2 == c
 
 // Close runs the shutdown sequence exactly once.
+//@ spec func subOK(s val) bool = s != nil && s.closing != nil && s.inEvents != nil && s.addEventChan != nil && s.rmEventChan != nil && s.httpPeerstore != nil && s.handlers != nil && !closed(s.addEventChan) && !closed(s.rmEventChan) && s.closing != s.inEvents && (closed(s.inEvents) ==> closed(s.closing)) && (s.receiver != nil ==> s.watchDone != nil && recvOK(s.receiver) && s.receiver.outChan != s.closing && s.receiver.done != s.closing && s.receiver.done != s.inEvents && (s.receiver.cancelWatch != nil ==> s.receiver.watchDone != nil) && (s.receiver.cancelPubsub != nil ==> s.receiver.topic != nil))
+
 //@ func (*Subscriber).Close
 //@   property C15
-//@   requires s != nil
+//@   requires subOK(s) && !held(s.expSyncMutex) && (s.receiver != nil ==> !held(s.receiver.announceMutex))
+//@   requires !s.closeOnce ==> !closed(s.closing) && !closed(s.inEvents)
+//@   ensures-local old(s.closeOnce) ==> count("call:doClose") == 0 && result == nil
+//@   ensures-local !old(s.closeOnce) ==> count("call:doClose") == 1
 
 // Shutdown order: signal closing; refuse and then await explicit syncs; close
 // the receiver and await the watcher; await announce-triggered syncs; only then
 // stop the event distributor.
 //@ func (*Subscriber).doClose
 //@   property C15
-//@   requires s != nil && s.closing != nil && !closed(s.closing) && s.inEvents != nil && !closed(s.inEvents) && !held(s.expSyncMutex) && s.httpPeerstore != nil
-//@   requires s.receiver != nil ==> s.watchDone != nil
+//@   requires subOK(s) && !closed(s.closing) && !closed(s.inEvents) && !held(s.expSyncMutex) && (s.receiver != nil ==> !held(s.receiver.announceMutex))
+//@   mayblock recv:watchDone wait:expSyncWG wait:asyncWG
 //@   ensures-local count("close:closing") == 1 && count("close:inEvents") == 1
 //@   ensures-local before("close:closing", "wg.wait:expSyncWG") && before("wg.wait:expSyncWG", "wg.wait:asyncWG") && before("wg.wait:asyncWG", "close:inEvents")
 //@   ensures-local count("call:Close") >= 1 ==> before("wg.wait:expSyncWG", "call:Close") && before("call:Close", "recv:watchDone") && before("recv:watchDone", "wg.wait:asyncWG")
@@ -39,5 +46,5 @@ package dagsync
 // Registering a listener must not block forever once the subscriber is closed.
 //@ func (*Subscriber).OnSyncFinished
 //@   property C15 C14
-//@   requires s != nil && s.addEventChan != nil && s.closing != nil
+//@   requires subOK(s)
 //@   shutdown closing
